@@ -533,7 +533,7 @@ func runPATHINDEX(c *Ctx) {
 	P := c.P
 	n := 0
 	for _, fn := range P.Funcs {
-		if fn.Pkg.Pkg.Path() != ir.MastPath || fn.Signature.Recv() == nil || !ir.IsPtrToNamed(fn.Signature.Recv().Type(), "Cursor") || fn.Name() == "String" {
+		if fn.Pkg.Pkg.Path() != ir.MastPath || fn.Signature.Recv() == nil || !ir.IsPtrToNamed(fn.Signature.Recv().Type(), "Cursor") {
 			continue
 		}
 		for _, b := range fn.Blocks {
@@ -718,7 +718,7 @@ func runENTRYINV(c *Ctx) {
 		return false, "a value of unrecognised form (" + pathDesc(ir.Sym(v)) + ")"
 	}
 	for _, fn := range P.Funcs {
-		if fn.Pkg.Pkg.Path() != ir.MastPath || fn.Signature.Recv() == nil || !ir.IsPtrToNamed(fn.Signature.Recv().Type(), "Cursor") || fn.Name() == "String" {
+		if fn.Pkg.Pkg.Path() != ir.MastPath || fn.Signature.Recv() == nil || !ir.IsPtrToNamed(fn.Signature.Recv().Type(), "Cursor") {
 			continue
 		}
 		for _, b := range fn.Blocks {
@@ -924,7 +924,7 @@ func runSTEPOVER(c *Ctx) {
 	P := c.P
 	n := 0
 	for _, fn := range P.Funcs {
-		if fn.Pkg.Pkg.Path() != ir.MastPath || fn.Signature.Recv() == nil || !ir.IsPtrToNamed(fn.Signature.Recv().Type(), "Cursor") || fn.Name() == "String" {
+		if fn.Pkg.Pkg.Path() != ir.MastPath || fn.Signature.Recv() == nil || !ir.IsPtrToNamed(fn.Signature.Recv().Type(), "Cursor") {
 			continue
 		}
 		for _, b := range fn.Blocks {
